@@ -65,7 +65,7 @@ def rec_scene(seed):
     use_lbkg = rng.random() < 0.3
     slope = 0.15 if use_lbkg else 0.0
     data += slope * x + 2.0 * (1 if use_lbkg else 0)
-    grouping = rng.choice(['grouper', 'grouper', 'supplied', 'none'])
+    grouping = rng.choice(['grouper', 'grouper', 'supplied', 'both', 'none'])     # both: a grouper is configured and group_id is supplied (the column wins)
     t = rng.choice([20, 28, 40, 80])            # quarter pixels
     supplied = [rng.randint(1, 3) for _ in range(n)]
     mask_l = []
@@ -74,6 +74,19 @@ def rec_scene(seed):
         cx, cy = pos[k][0] // 4, pos[k][1] // 4
         mask_l = [[min(h - 1, max(0, cy + dy)), min(w - 1, max(0, cx + dx))] for dy, dx in ((2, 2), (2, 3), (-3, 1))]
         mask_l = [list(z) for z in {tuple(z) for z in mask_l}]
+    # a dead block beside one source (outside its fit window, inside its local-background annulus) and non-finite pixels
+    dead = []
+    if mask_l and rng.random() < 0.6:
+        k = rng.randrange(n)
+        cx, cy = pos[k][0] // 4, pos[k][1] // 4
+        dead = [[r, c] for r in range(max(0, cy - 9), min(h, cy + 10)) for c in range(cx + 6, min(w, cx + 11))]
+        mask_l = [list(z) for z in {tuple(z) for z in mask_l + dead}]
+    nan_l = []
+    if rng.random() < 0.3:
+        k = rng.randrange(n)
+        cx, cy = pos[k][0] // 4, pos[k][1] // 4
+        nan_l = [[min(h - 1, max(0, cy + rng.randint(-2, 2))), min(w - 1, max(0, cx + rng.randint(-2, 2)))]]
+    use_lbkg_est = bool(mask_l) and rng.random() < 0.6
     fit = (rng.choice([5, 7]), rng.choice([5, 7, 9]))
     fix_x = rng.random() < 0.2
     bounds = rng.random() < 0.3
@@ -85,7 +98,7 @@ def rec_scene(seed):
         ipos = [(px, ipy) for (px, _), (_, ipy) in zip(pos, ipos)]
     ipos = [(min(max(a, 0), 4 * (w - 1)), min(max(b, 0), 4 * (h - 1))) for a, b in ipos]
     init['x'] = [a / 4.0 for a, _ in ipos]; init['y'] = [b / 4.0 for _, b in ipos]
-    if grouping == 'supplied':
+    if grouping in ('supplied', 'both'):
         init['group_id'] = supplied
     if use_lbkg:
         init['local_bkg'] = [slope * (px / 4.0) + 2.0 for px, _ in pos]
@@ -94,15 +107,28 @@ def rec_scene(seed):
         m = np.zeros((h, w), dtype=bool)
         for r, c in mask_l:
             m[r, c] = True
+    for r, c in nan_l:
+        data[r, c] = [np.nan, np.inf][seed % 2]
     mod = model.copy()
     if fix_x:
         mod.x_0.fixed = True
-    rec = {'id': seed, 'model': mkind, 'pos': [list(p) for p in ipos], 'h': h, 'w': w, 't': t, 'grouping': grouping, 'supplied': supplied, 'mask': mask_l,
+    from photutils.background import MeanBackground
+    lbe = LocalBackground(6, 10, bkg_estimator=MeanBackground(sigma_clip=None)) if use_lbkg_est else None
+    mk = lambda: PSFPhotometry(mod, fit, grouper=SourceGrouper(t / 4.0) if grouping in ('grouper', 'both') else None, aperture_radius=4,  # noqa
+                               xy_bounds=(1.5, 1.5) if bounds else None, localbkg_estimator=lbe)
+    rec = {'id': seed, 'model': mkind, 'pos': [list(p) for p in ipos], 'h': h, 'w': w, 't': t, 'grouping': grouping, 'supplied': supplied,
+           'mask': [list(z) for z in {tuple(z) for z in mask_l + nan_l}], 'nonfinite': bool(nan_l), 'lbkg_estimator': use_lbkg_est, 'maskblind_ok': True,
            'fit': list(fit), 'local_bkg': use_lbkg, 'raised': False, 'check_recovery': False, 'scaled_ok': True, 'iter_equal': True, 'n': n}
     try:
-        ph = PSFPhotometry(mod, fit, grouper=SourceGrouper(t / 4.0) if grouping == 'grouper' else None, aperture_radius=4,
-                           xy_bounds=(1.5, 1.5) if bounds else None)
+        ph = mk()
         res = ph(data, mask=m, init_params=init.copy())
+        if m is not None:
+            # the values stored under the mask are irrelevant (fit, local background, initial fluxes)
+            da, db = data.copy(), data.copy()
+            da[m] = 1e4; db[m] = -3e3
+            ra, rb = mk()(da, mask=m, init_params=init.copy()), mk()(db, mask=m, init_params=init.copy())
+            rec['maskblind_ok'] = bool(all(np.allclose(np.asarray(ra[cn], dtype=float), np.asarray(rb[cn], dtype=float), rtol=1e-6, atol=1e-6, equal_nan=True)
+                                           for cn in ('x_fit', 'y_fit', 'flux_fit', 'local_bkg', 'flux_init', 'npixfit', 'flags')))
         rec.update(id_=None)
         rec['id'] = seed
         rec['ids'] = [int(v) for v in res['id']]
@@ -117,8 +143,8 @@ def rec_scene(seed):
         # recovery is demanded when every source is well constrained: complete unmasked windows, away from the edge, start within a pixel
         full = all(npx == fit[0] * fit[1] for npx in rec['npixfit'])
         grouped_ok = grouping != 'none' or all((a - c) ** 2 + (b - d) ** 2 > 36 ** 2 for k, (a, b) in enumerate(pos) for (c, d) in pos[k + 1:])
-        merged_ok = grouping != 'supplied'
-        rec['check_recovery'] = bool(full and grouped_ok and merged_ok and not fix_x and not mask_l and mkind in ('circ', 'gauss', 'image'))
+        merged_ok = grouping not in ('supplied', 'both')
+        rec['check_recovery'] = bool(full and grouped_ok and merged_ok and not fix_x and not mask_l and not nan_l and mkind in ('circ', 'gauss', 'image'))
         if grouping == 'grouper':      # every close pair must actually be in one group for joint fitting to recover it
             rec['check_recovery'] = rec['check_recovery'] and all((a - c) ** 2 + (b - d) ** 2 <= t * t or (a - c) ** 2 + (b - d) ** 2 > 36 ** 2
                                                                   for k, (a, b) in enumerate(ipos) for (c, d) in ipos[k + 1:])
@@ -126,19 +152,18 @@ def rec_scene(seed):
             rec['check_recovery'] = rec['check_recovery'] and all((a - c) ** 2 + (b - d) ** 2 >= 20 ** 2 for k, (a, b) in enumerate(pos) for (c, d) in pos[k + 1:])
         rec['tol_pos'] = int((2e-3 if not use_lbkg else 0.12) * SP) + 1; rec['tol_flux'] = int((2e-3 if not use_lbkg else 0.02) * 16384) + 1
         resid = ph.make_residual_image(data - slope * x - 2.0 * (1 if use_lbkg else 0), psf_shape=(15, 15))
-        rec['resid_k'] = int(round(float(np.max(np.abs(resid))) / max(flux) * 16384 * 16)); rec['tol_resid'] = int((2e-3 if not use_lbkg else 0.02) * 16384 * 16)
+        rec['resid_k'] = int(round(float(np.max(np.abs(resid[np.isfinite(resid)]))) / max(flux) * 16384 * 16)); rec['tol_resid'] = int((2e-3 if not use_lbkg else 0.02) * 16384 * 16)
         # scaling the image (and the supplied local backgrounds) scales the fluxes
         init3 = init.copy()
         if use_lbkg:
             init3['local_bkg'] = np.asarray(init['local_bkg']) * 3.0
-        res3 = PSFPhotometry(mod, fit, grouper=SourceGrouper(t / 4.0) if grouping == 'grouper' else None, aperture_radius=4,
-                             xy_bounds=(1.5, 1.5) if bounds else None)(data * 3.0, mask=m, init_params=init3)
+        res3 = mk()(data * 3.0, mask=m, init_params=init3)
         # (demanded for well-constrained scenes only: separately fitted heavy blends converge to ill-defined values)
         rec['scaled_ok'] = bool((not rec['check_recovery']) or np.allclose(np.asarray(res3['flux_fit']), 3.0 * np.asarray(res['flux_fit']), rtol=1e-5, atol=1e-5))
         # IterativePSFPhotometry with one iteration equals PSFPhotometry on the shared columns
         if seed % 3 == 0:
-            it = IterativePSFPhotometry(mod, fit, DAOStarFinder(1e9, 3.0), grouper=SourceGrouper(t / 4.0) if grouping == 'grouper' else None,
-                                        aperture_radius=4, maxiters=1, xy_bounds=(1.5, 1.5) if bounds else None)
+            it = IterativePSFPhotometry(mod, fit, DAOStarFinder(1e9, 3.0), grouper=SourceGrouper(t / 4.0) if grouping in ('grouper', 'both') else None,
+                                        aperture_radius=4, maxiters=1, xy_bounds=(1.5, 1.5) if bounds else None, localbkg_estimator=lbe)
             r2 = it(data, mask=m, init_params=init.copy())
             same = all(np.allclose(np.asarray(r2[cn], dtype=float), np.asarray(res[cn], dtype=float), rtol=1e-9, atol=1e-9, equal_nan=True)
                        for cn in ('id', 'group_id', 'x_fit', 'y_fit', 'flux_fit', 'npixfit', 'flags') if cn in r2.colnames)
@@ -157,7 +182,8 @@ def rec_scene(seed):
 def run(ctx):
     q = ctx.quick
     ctx.rule = ('seeded scenes rendered from the fitted PSF model (Gaussian PRFs, image-based, gridded), 1-5 sources with distinct fluxes in shuffled row order, '
-                'clusters of close sources and sources near the edge, grouper thresholds / supplied group ids / no grouping, masks, fit shapes, fixed x, xy bounds; '
+                'clusters of close sources and sources near the edge, grouper thresholds / supplied group ids (with and without a grouper) / no grouping, masks incl. dead blocks, '
+                'NaN/inf pixels, local-background estimator, fit shapes, fixed x, xy bounds; '
                 'non-trivial = >= 2 sources with a non-trivial group structure or a clipped / masked window')
     ctx.mc('PSFBook', 'MC_PSFBook.cfg', workers=8)
     for b in ('MC_PSFBook_bad1.cfg', 'MC_PSFBook_bad2.cfg'):
@@ -172,7 +198,7 @@ def run(ctx):
     for r in recs:
         v = ver[r['id']]
         if not v['ok']:
-            ctx.violation(v['clause'], {'model': r['model'], 'grouping': r['grouping'], 'masked': bool(r['mask']), 'n': r['n']}, {'case': r})
+            ctx.violation(v['clause'], {'model': r['model'], 'grouping': r['grouping'], 'masked': bool(r['mask']), 'nonfinite': r['nonfinite'], 'lbkg_estimator': r['lbkg_estimator'], 'n': r['n']}, {'case': r})
         else:
             ctx.traces += 1
     ctx.evaluations += len(recs)
